@@ -13,11 +13,15 @@
    * removing or renaming a name that is not there, removing a non-empty directory or an unsupported entry, renaming or
      moving onto an existing name: each fails and leaves disk, library memory (bitmap, free count) and write log as they
      were; and the chain hypotheses of all these theorems are met by states the library's own block writer produces.
+   * closing / flushing a write handle cannot unlink the entries chained behind the file: the header sector written by
+     `adfFileFlush` carries the chain link, parent and protection words of the sector as it is on the disk, whatever the
+     (possibly stale) copy in the handle says (the defect repaired by 5ae3d82), for every disk, handle and fault schedule.
   Everything else of C02 — the full tree equality over histories, successful delete/rename/move, moving a directory into
   its own subtree, the DIRCACHE variants, free block counts — is decided on the real code by the history checks against the reference tree model
   (tools/spec.py) and the independent decoder, with the model tied trace-exactly.  (MANIFEST: partial.)
 -/
 import AdfProofs.NamespaceLemmas
+import AdfProofs.FlushLemmas
 import AdfProofs.RefusalLemmas
 import AdfProofs.WriteReadLemmas
 import AdfProps.C15
@@ -124,5 +128,19 @@ theorem C02_chain_hypotheses_reachable (c : Cfg) (v n1 n2 : Nat) (e1 e2 : Blk) (
     ∃ s', run c (do let _ ← writeEntryBlock v n2 e2; writeEntryBlock v n1 e1) s = (.ok rcOK, s') ∧
           ChainOn c s'.disk v n1 [(n1, withSum e1 F_checkSum), (n2, withSum e2 F_checkSum)] :=
   two_entry_chain_reachable c v n1 n2 e1 e2 s hf hr1 hr2 hrw hne h1 h2 hwf1 hwf2 ht1 ht2 hl1 hl2
+
+/-- **Flushing a write handle keeps the hash-chain link that is on the disk.**  For every handle state (in particular a
+    header copy taken before other entries were chained behind the file), every disk content and every fault schedule, the
+    header part of `adfFileFlush` writes nothing or exactly the file's header sector, and the bytes it writes decode to
+    `nextSameHash`, `parent` and `access` words equal to those of that sector before the write. -/
+theorem C02_flush_keeps_chain_link (c : Cfg) (h : FileH) (s : St) (hwf : BlkWF h.hdr) :
+    Post AnyFault c (fileFlushHdr h) s (fun _ s' =>
+      writesOf s'.trace = writesOf s.trace ∨
+      ∃ data st, writesOf s'.trace = Ev.wr (some h.vol) (vsect c h.vol (h.hdr.w F_headerKey)) 512 data st :: writesOf s.trace ∧
+        linkOfSector data = linkOfSector ((s.sector (vsect c h.vol (h.hdr.w F_headerKey))).take 512)) :=
+  fileFlushHdr_keeps_link c h s hwf
+
+/-- the hypothesis is met by every header the library decodes from a sector -/
+example (bytes : Bytes) : BlkWF (blkOfBytes bytes) := blkOfBytes_wf bytes
 
 end Adf.C02
